@@ -75,6 +75,38 @@ class DrawGmm(SxContract):
                 yield f"row {i} is the {i}-th draw of the component named by its label [{j}]", prove.eq(X[i, j], want)
 
 
+def _gmm_native(self, env, inp):
+    """float replay on the real generator: same seed, same stream -> the documented construction (choice of the components,
+    then one Gaussian sampler call per component in order, row i taken from the draws of component y[i]) reproduced with
+    NumPy's RandomState must give the same array -- for float parameters and for integer-typed arrays / plain lists"""
+    K, d = self.K, self.d
+    n = max(len(self.labels), 40)
+    scale = self.scale if d > 1 else self.scale.reshape(-1, 1)
+    # integer-valued covariances: diagonal 1..d times (k+1) (variances 1, 2, 3 for d == 1), all positive definite
+    iscale = (np.array([np.diag(np.arange(1, d + 1) * (k + 1)) for k in range(K)]) if d > 1 else np.arange(1, K + 1).reshape(-1, 1)).astype(int)
+    variants = {"float arrays": (self.loc, scale),
+                "integer arrays": (np.round(self.loc).astype(int), iscale),
+                "lists of ints": (np.round(self.loc).astype(int).tolist(), iscale.tolist())}
+    bad = None
+    for vname, (loc, sc) in variants.items():
+        for seed in (0, 1):
+            X, y = SD.draw_gmm(n, loc, sc, self.pvals, np.random.RandomState(seed))
+            rs = np.random.RandomState(seed)
+            locf, scf = np.asarray(loc, dtype=float), np.asarray(sc, dtype=float)
+            yr = rs.choice(K, p=self.pvals, size=(n,))
+            draws = [rs.multivariate_normal(locf[k], scf[k], size=n) if d > 1 else rs.normal(locf[k, 0], np.sqrt(scf[k, 0]), size=(n,)).reshape(-1, 1)
+                     for k in range(K)]
+            Xr = np.array([draws[yr[i]][i] for i in range(n)])
+            ok = np.array_equal(np.asarray(y), yr) and np.shape(X) == (n, d) and np.allclose(np.asarray(X, dtype=float), Xr, rtol=1e-12, atol=1e-12)
+            if not ok and bad is None:
+                bad = {"parameters": vname, "seed": seed, "loc": np.asarray(loc).tolist(), "scale": np.asarray(sc).tolist(),
+                       "X[:3]": np.asarray(X)[:3].tolist(), "reference[:3]": Xr[:3].tolist(), "dtype": str(np.asarray(X).dtype)}
+    return {"*": (bad is None, bad or {"variants": list(variants)})}
+
+
+DrawGmm.native = _gmm_native
+
+
 class StudentT(SxContract):
     fn = "gemclus.data.synthetic_data.multivariate_student_t"
     safety = True
@@ -263,6 +295,22 @@ def flow_obligations():
                         bad.append(e[2] + " receives " + fx.show(e[3][-1])[:60])
         obs.append(Ob(f"{name}: every draw comes from check_random_state(random_state); no global random state", PROVED if draws and not bad and not glob else REFUTED,
                       "fx-dataflow", "P", {"draws": draws, "bad": sorted(set(bad)), "global": glob}, fn=fn))
+    return obs
+
+
+def native_streams():
+    """B: the real draw_gmm replayed against the documented construction on NumPy's own stream, float / integer-typed / list parameters"""
+    obs = []
+    for d, K, lab in ((1, 2, [0, 1, 1]), (1, 3, [0, 2, 1]), (2, 2, [1, 0, 0]), (2, 3, [0, 2, 0]), (3, 2, [0, 1, 1])):
+        c = DrawGmm(d, lab, K)
+        c.build(None)
+        try:
+            ok, det = c.native({}, {})["*"]
+        except Exception as e:
+            ok, det = False, {"exception": repr(e)}
+        det = dict(det, replayed=not ok)
+        obs.append(Ob(f"draw_gmm[d={d},K={K}]: same stream as the documented construction for float, integer-typed and list parameters (40 samples x 2 seeds)",
+                      PROVED if ok else REFUTED, "native", "B", det, fn=DrawGmm.fn))
     return obs
 
 
